@@ -30,7 +30,8 @@ ASSUMPTIONS = [
     "a node reads other nodes' outputs only through declared inputs",
 ]
 DECIDED = ["a Kahn template", "b rank covers every edge kind", "c declared rank-free edges only", "d forward scan",
-           "e the graph scan is the only evaluator", "f push-source prefix"]
+           "e the graph scan is the only evaluator", "f push-source prefix",
+           'j rank-free declaration is part of the interning identity (= C06.a)']
 NOT_DECIDED = ["side-channel reads by user nodes", "nested-kind internals (C09-C12)"]
 
 # confirmed rank-free input sites: (file, enclosing function) -> count, with the reason
